@@ -121,22 +121,20 @@ theorem gen_sound_partial (Δ : Decls) (o : Opts) (fuel : Nat) (t : GoType) (s :
 /-! ### reuse: a sequence of `GenerateSchemaRef` calls on one `Generator` (state kept between the calls) -/
 
 /-- **The generator establishes the relation after any history of calls on the same generator** (all types, option
-sets, histories of any length): what `g.GenerateSchemaRef(t)` returns after `g.GenerateSchemaRef(p)` for every `p` of
-`pre` describes `t`, and every entry recorded for the export loop — by this call or an earlier one — describes the
-declared struct it is named after. Full statement: for every `pre`. The code deviates when an earlier ROOT call was for
-a pointer type (`RootPtrBefore`, finding F-C18-7, `witness_root_ptr_before`). -/
-theorem gen_rel_reuse_partial (Δ : Decls) (o : Opts) (fuel : Nat) (pre : List GoType) (t : GoType) (s : Sch) (σ : St)
-    (hg : genAfter Δ o fuel pre t = (.ok s, σ)) (ha : σ.anon = false) (hp : ¬ RootPtrBefore pre) :
+sets, histories of any length, pointer types at the root included): what `g.GenerateSchemaRef(t)` returns after
+`g.GenerateSchemaRef(p)` for every `p` of `pre` describes `t`, and every entry recorded for the export loop — by this call
+or an earlier one — describes the declared struct it is named after. At full strength since the repair of F-C18-7 (the
+non-nullable schema of a root pointer is no longer entered into the type table; `regression_root_ptr_before`). -/
+theorem gen_rel_reuse (Δ : Decls) (o : Opts) (fuel : Nat) (pre : List GoType) (t : GoType) (s : Sch) (σ : St)
+    (hg : genAfter Δ o fuel pre t = (.ok s, σ)) (ha : σ.anon = false) :
     RelS Δ (typeName o) (okσ σ) (stripPtr t) s ∧ ∀ e, e ∈ σ.refs → RefGood Δ o σ e := by
-  have hp' : rootPtrBeforeB pre = false := by
-    cases h : rootPtrBeforeB pre with | false => rfl | true => exact absurd h hp
   have hi0 : Inv Δ o {} := ⟨fun _ _ h => (by cases h), fun _ h => (by cases h)⟩
   unfold genAfter at hg
   have ha1 : (genSeq Δ o fuel pre {}).anon = false := by
     have hm := (gen_mono Δ o fuel).1 [] "_root" t (genSeq Δ o fuel pre {})
     rw [hg] at hm
     exact hm.2 ha
-  have hi := genSeq_inv Δ o fuel pre {} hp' hi0 ha1
+  have hi := genSeq_inv Δ o fuel pre {} hi0 ha1
   have h := (gen_good Δ o fuel).1 [] "_root" t _ hi
   rw [hg] at h
   obtain ⟨h1, _, h3⟩ := h ha
@@ -144,11 +142,11 @@ theorem gen_rel_reuse_partial (Δ : Decls) (o : Opts) (fuel : Nat) (pre : List G
 
 /-- **Soundness after any history of calls on the same generator (partial).** The statement of `gen_sound_partial`
 for the schema returned by the LAST of a sequence of `GenerateSchemaRef` calls on one generator and any component map
-the export loop can produce from the accumulated state — outside the five classes of `gen_sound_partial` and
-`RootPtrBefore`. -/
+the export loop can produce from the accumulated state — outside the five classes of `gen_sound_partial` and nothing
+else (the sixth class `RootPtrBefore` was deleted with the repair of F-C18-7). -/
 theorem gen_sound_reuse_partial (Δ : Decls) (o : Opts) (fuel : Nat) (pre : List GoType) (t : GoType) (s : Sch) (σ : St)
     (Γ : Comps) (v : GoVal)
-    (hg : genAfter Δ o fuel pre t = (.ok s, σ)) (hp : ¬ RootPtrBefore pre) (hinj : TnInj Δ (typeName o))
+    (hg : genAfter Δ o fuel pre t = (.ok s, σ)) (hinj : TnInj Δ (typeName o))
     (hl : LoopResult σ Γ) (hdg : ¬ Dangling σ) (hw : ¬ WrongComponent o σ)
     (hv : HasType Δ v t) (hnn : encode Δ t v ≠ .null)
     (hq : ¬ HasQuoted Δ t) (hd : ¬ DupNames Δ t) (hn : ¬ NilAtCycle Γ s (encode Δ t v)) :
@@ -159,7 +157,7 @@ theorem gen_sound_reuse_partial (Δ : Decls) (o : Opts) (fuel : Nat) (pre : List
     simp only [wrongCandB, Bool.or_eq_false_iff] at hw'; exact hw'.1
   have hd' : danglingB σ = false := by
     cases h : danglingB σ with | false => rfl | true => exact absurd h hdg
-  obtain ⟨hr, hc⟩ := gen_rel_reuse_partial Δ o fuel pre t s σ hg ha hp
+  obtain ⟨hr, hc⟩ := gen_rel_reuse Δ o fuel pre t s σ hg ha
   have hco := complete_of_loop hl hd'
   have hmono := okΓ_of_complete hco
   obtain ⟨v', hv', he⟩ := strip_value Δ v t hv hnn
@@ -175,10 +173,10 @@ theorem gen_sound_reuse_partial (Δ : Decls) (o : Opts) (fuel : Nat) (pre : List
     (by unfold HasQuoted at hq ⊢; rwa [heredAll_strip]) (by unfold DupNames at hd ⊢; rwa [heredAll_strip]) hn
 
 /-- … and the references of the last schema and of every stored component resolve in that map. -/
-theorem gen_refs_resolve_reuse_partial (Δ : Decls) (o : Opts) (fuel : Nat) (pre : List GoType) (t : GoType) (s : Sch)
-    (σ : St) (Γ : Comps) (hg : genAfter Δ o fuel pre t = (.ok s, σ)) (hp : ¬ RootPtrBefore pre) (ha : σ.anon = false)
+theorem gen_refs_resolve_reuse (Δ : Decls) (o : Opts) (fuel : Nat) (pre : List GoType) (t : GoType) (s : Sch)
+    (σ : St) (Γ : Comps) (hg : genAfter Δ o fuel pre t = (.ok s, σ)) (ha : σ.anon = false)
     (hl : LoopResult σ Γ) (hd : ¬ Dangling σ) : Resolves Γ s := by
-  obtain ⟨hr, hc⟩ := gen_rel_reuse_partial Δ o fuel pre t s σ hg ha hp
+  obtain ⟨hr, hc⟩ := gen_rel_reuse Δ o fuel pre t s σ hg ha
   have hd' : danglingB σ = false := by
     cases h : danglingB σ with | false => rfl | true => exact absurd h hd
   have hco := complete_of_loop hl hd'
@@ -503,23 +501,25 @@ theorem regression_rec_container :
   obtain ⟨k, rfl⟩ : ∃ k, fuel = k + 3 := ⟨fuel - 3, by omega⟩
   rfl
 
-/-- Finding F-C18-7 (reuse of a generator): `type T struct { N int `json:"n"` }`, `type H struct { F *T `json:"f"` }`.
-`g.GenerateSchemaRef(*T)` stores the ROOT schema — not nullable — in the type table under `*T`; a later
-`g.GenerateSchemaRef(H)` on the same generator finds it for field `F`: `H{}` encodes `{"f":null}`, which is rejected.
-On a fresh generator the same type gets a nullable property and the value is accepted. -/
+/-- Regression for F-C18-7 (reuse of a generator; repaired by `repairs/C18-root-pointer-type-table.diff`):
+`type T struct { N int `json:"n"` }`, `type H struct { F *T `json:"f"` }`. `g.GenerateSchemaRef(*T)` used to store the ROOT
+schema — not nullable — in the type table under `*T`, where a later `g.GenerateSchemaRef(H)` on the same generator found it
+for field `F`, so that `H{}` = `{"f":null}` was rejected. Now nothing is stored for the root pointer: after that history
+`H` gets the schema it gets on a fresh generator (nullable `f`) and the value is accepted; the first call's result is
+unchanged (not nullable). -/
 def ΔTH : Decls := [("T", [(tagF "N" "n", .int .int)]), ("H", [(tagF "F" "f", .ptr (.named "T"))])]
 def sT (nl : Bool) : Sch := .node "object" nl "" none none none [("n", leaf "integer" false "" none none)] none false
 def sH (nl : Bool) : Sch := .node "object" false "" none none none [("f", sT nl)] none false
-theorem witness_root_ptr_before :
-    (genAfter ΔTH o0 10 [.ptr (.named "T")] (.named "H")).1 = .ok (sH false) ∧
+theorem regression_root_ptr_before :
+    (genRoot ΔTH o0 10 (.ptr (.named "T"))).1 = .ok (sT false) ∧
+    cacheLookup (.ptr (.named "T")) (genRoot ΔTH o0 10 (.ptr (.named "T"))).2.cache = none ∧
+    (genAfter ΔTH o0 10 [.ptr (.named "T")] (.named "H")).1 = .ok (sH true) ∧
     (genAfter ΔTH o0 10 [] (.named "H")).1 = .ok (sH true) ∧
-    RootPtrBefore [.ptr (.named "T")] ∧
     HasType ΔTH (.struct [.nil]) (.named "H") ∧
     encode ΔTH (.named "H") (.struct [.nil]) = .obj [("f", .null)] ∧
-    ¬ NilAtCycle [] (sH false) (.obj [("f", .null)]) ∧
-    acceptB [] (sH false) (.obj [("f", .null)]) = false ∧
-    acceptB [] (sH true) (.obj [("f", .null)]) = true := by
-  refine ⟨by rfl, by rfl, by decide, by decide, by rfl, by decide, by decide, by decide⟩
+    acceptB [] (sH true) (.obj [("f", .null)]) = true ∧
+    acceptB [] (sH false) (.obj [("f", .null)]) = false := by
+  refine ⟨by rfl, by rfl, by rfl, by rfl, by decide, by rfl, by decide, by decide⟩
 
 /-! ### non-vacuity -/
 
@@ -561,15 +561,14 @@ example : (genRoot [] o0 10 tOctets).1 = .ok (leaf "string" false "byte" none no
     acceptB [] (leaf "string" false "byte" none none) (encode [] tOctets (.bytes "AQID")) = true := by
   refine ⟨by rfl, by rfl, by decide, by decide, by decide⟩
 
-/-- reuse, outside `RootPtrBefore`: after `g.GenerateSchemaRef(T)` (by value) and `g.GenerateSchemaRef(Kids-T)` the
-schema for `H` on the same generator has a nullable `f` and accepts `{"f":null}`; the type table answers the second
-request for `T` -/
-example : ¬ RootPtrBefore [.named "T", .named "T"] ∧
+/-- reuse: after `g.GenerateSchemaRef(T)` twice (by value) the schema for `H` on the same generator has a nullable `f`
+and accepts `{"f":null}`; the type table answers the second request for `T` -/
+example :
     (genAfter ΔTH o0 10 [.named "T", .named "T"] (.named "H")).1 = .ok (sH true) ∧
     (genAfter ΔTH o0 10 [.named "T", .named "T"] (.named "H")).2.trace.contains "cache.hit" = true ∧
     ¬ Dangling (genAfter ΔTH o0 10 [.named "T", .named "T"] (.named "H")).2 ∧
     ¬ WrongComponent o0 (genAfter ΔTH o0 10 [.named "T", .named "T"] (.named "H")).2 ∧
     acceptB [] (sH true) (encode ΔTH (.named "H") (.struct [.nil])) = true := by
-  refine ⟨by decide, by rfl, by decide, by decide, by decide, by decide⟩
+  refine ⟨by rfl, by decide, by decide, by decide, by decide⟩
 
 end KinModel.Gen3
